@@ -30,6 +30,7 @@ RULE = ("base = generated table with a vocabulary type, naive creation date "
         "applied; `mutants` in coverage counts (base, mutation) pairs")
 BUDGET = {"quick": {"shards": 16, "examples": 25},
           "thorough": {"shards": 16, "examples": 600}}
+FUZZ_SECONDS = 120   # thorough tier: atheris campaign on the same property
 ASSUMPTIONS = ["an exception or a non-zero exit of validate-table counts as "
                "'not valid'",
                "mutation classes outside the statement's list are recorded "
